@@ -152,7 +152,7 @@ func TestVerif_C09_Files(t *testing.T) {
 		"parsed by refflv, and both files are demuxed by the library through a segmenting reader (whole | 1 byte per Read | random 1..7 | cut list " +
 		"with boundaries inside file header, tag headers and PreviousTagSize; optionally last bytes delivered together with io.EOF). " +
 		"distinct = observed flags x tag-count bucket x segmentation modes x set of size classes x {timestamps below 2^24, with extension byte}")
-	n := m.N(2000, 600000)
+	n := m.N(6000, 600000)
 	nbig := m.N(2, 60)
 	m.Require("evaluations", int64(n))
 	m.Require("ext_timestamp_tags", 200)
